@@ -92,6 +92,8 @@ class Ctx:
         if x is None:
             return None
         ty = type(x)
+        if ty.__name__ == '_ObjWire':   # a value the generator already wrote in wire form
+            return dict(x)
         if ty is bool:
             return x
         if ty is int:
